@@ -9,7 +9,7 @@
 (* and at the end of the trace C03 (Covers), C05 (SameVal), C04 (Floor),    *)
 (* C19 (ReportOK) and the tracing half of C09.  Verdicts are total: every   *)
 (* trace ends in a state with v.done and one VERDICT line is printed.       *)
-EXTENDS PickleVM, Verdict, Json, IOUtils, TLCExt
+EXTENDS Analysis, Json, IOUtils, TLCExt     \* Analysis extends PickleVM and Verdict
 
 T == JsonDeserialize(IOEnv.VERIF_TRACE)
 
@@ -17,7 +17,7 @@ VARIABLES tid, l, s, v
 tvars == <<tid, l, s, v>>
 
 V0 == [done |-> FALSE, dom |-> "in", ref |-> "ok", c09 |-> "ok", c09t |-> "na",
-       c03 |-> "na", c05 |-> "na", c04 |-> "na", c19 |-> "na", floor |-> 0, nev |-> 0, st |-> "run"]
+       c03 |-> "na", c05 |-> "na", c04 |-> "na", c19 |-> "na", floor |-> 0, mv |-> 0, nev |-> 0, st |-> "run"]
 
 TInit == tid \in 1..Len(T) /\ l = 0 /\ s = S0 /\ v = V0
 
@@ -102,7 +102,7 @@ Finish ==
   /\ ~v.done /\ (l = Len(R.prog) \/ s.st # "run")
   /\ UNCHANGED <<tid, l, s>>
   /\ IF s.st = "stop"
-     THEN v' = [v EXCEPT !.done = TRUE, !.st = "stop", !.nev = Len(s.ev), !.floor = Floor(s.ev),
+     THEN v' = [v EXCEPT !.done = TRUE, !.st = "stop", !.nev = Len(s.ev), !.floor = Floor(s.ev), !.mv = ModelVerdict(s.ev),
                          !.ref = Keep(@, IF ~R.ref.ok THEN "spec-stops-ref-raised"
                                          ELSE IF ~SameEvSeq(R.ref.ev, s.ev) THEN "ref-events"
                                          ELSE IF ~SameVal(R.ref.res, Result(s)) THEN "ref-result" ELSE "ok"),
